@@ -275,6 +275,26 @@ func c13Run(c *mon.Ctx) {
 				c.Violation("circle-within", "B.Within(A) differs from A.Contains(B)", mk("B.Within(A)", fmt.Sprint(!ac), fmt.Sprint(ac)))
 			}
 		})
+		// ---- circle / circle with large radii: when the radii sum to more
+		// than half the circumference the two discs always share a point ----
+		if i%5 == 0 {
+			c.Try(func() {
+				ra := piR * (0.3 + 0.7*r.Float64())
+				rb := piR * (0.3 + 0.7*r.Float64())
+				if ra+rb < piR*1.001 {
+					return
+				}
+				bl, bn := sampleLoc(r)
+				a := geojson.NewCircle(center, ra, 64)
+				b := geojson.NewCircle(geometry.Point{X: bn, Y: bl}, rb, 64)
+				c.Eval()
+				c.Count("large_circle_pairs")
+				if !a.Intersects(b) || !b.Intersects(a) {
+					c.Violation("circle-intersects-circle", "two circles whose radii sum to more than half the circumference do not intersect",
+						c13Case{Center: []float64{lon, lat}, Meters: ra, Steps: 64, Other: []float64{bn, bl, rb}, ProbeDist: sphere.Dist(lat, lon, bl, bn), What: "A.Intersects(B)", Got: fmt.Sprint(a.Intersects(b), b.Intersects(a)), Want: "true true"})
+				}
+			})
+		}
 		if i < 3 && c.WantSample() {
 			c.Sample(c13Case{Center: []float64{lon, lat}, Meters: m, Steps: steps, What: "circle with 10 point probes at controlled distances, serialisation, polygon, one partner circle"})
 		}
@@ -315,6 +335,6 @@ func init() {
 		Rule:        "random circles (centres biased to poles and antimeridian; radii sub-metre .. half the circumference incl. boundary values; step counts -5..4096) each probed by 10 points placed at controlled reference distances (r(1+-10^-k), r+-(1.001..3) tol, r+-1.0001 tol, inside the undecided band, interior, exterior, the centre) on random bearings and on/between polygon vertices, through Point and SimplePoint, Contains/Intersects/Within in both operand orders; monotonicity in the radius; JSON layout and reparse (m and km); closedness, centre containment and centring of the polygon approximation; circle/circle pairs placed around the containment and intersection boundaries. Non-trivial = distinct probe within 10 tolerances of the circle.",
 		Assumptions: []string{"reference distance: internal/sphere; decided only outside +-tol(1+1e-6), tol = max(1 mm, 1e-8 r)", "circle/circle is asserted away from poles and the antimeridian and with an allowance of 1e-5 of the radii for the library's centre-distance estimate", "known finding F22 (radius within 1 m of half the circumference) is matched with a magnitude bound"},
 		Run:         c13Run,
-		MustSee:     []string{"probes_decided", "probes_in_undecided_band", "monotone_checked", "km_checked", "polygons_checked", "polygon_centred_checked", "circle_pairs", "circle_contains_circle_true", "out_of_domain_radii"},
+		MustSee:     []string{"probes_decided", "probes_in_undecided_band", "monotone_checked", "km_checked", "polygons_checked", "polygon_centred_checked", "circle_pairs", "circle_contains_circle_true", "out_of_domain_radii", "large_circle_pairs"},
 	})
 }
